@@ -107,7 +107,7 @@ type config struct {
 
 func buildOps(sets [][]int, ephSets [][]int) []opDef {
 	var ops []opDef
-		for _, pk := range pks {
+	for _, pk := range pks {
 		for _, s := range sets {
 			ops = append(ops, opDef{kind: kPut, pk: pk, set: s, name: fmt.Sprintf("Put(%s,%s)", pk, setName(s))})
 		}
@@ -200,7 +200,6 @@ func (c *softCollector) add(cfg *config, key, msg string, hist []int) {
 	c.hist[key] = h
 	c.first[key] = ev.Violation{Key: key, Harness: "secidx-seq", Message: msg, Replay: map[string]any{"config": cfg.name, "ops": names, "indices": h}}
 }
-
 
 // states whose query oracle has been evaluated already (key: every key name of the DB plus the
 // index declarations of every record; queries are a deterministic function of it).
@@ -618,8 +617,8 @@ type collector[T any] struct {
 	done  chan error
 }
 
-func newCollector[T any]() *collector[T] { return &collector[T]{done: make(chan error, 1)} }
-func (c *collector[T]) OnNext(t T) error { c.items = append(c.items, t); return nil }
+func newCollector[T any]() *collector[T]     { return &collector[T]{done: make(chan error, 1)} }
+func (c *collector[T]) OnNext(t T) error     { c.items = append(c.items, t); return nil }
 func (c *collector[T]) OnComplete(err error) { c.done <- err }
 
 type idxEntry struct{ sk, pk string }
